@@ -106,7 +106,7 @@ def execute(scn, prefix=(), keep_root=False, tracer=None, strict=False, name="pr
     git = git_from_json(scn.get("git"))
     clock = driver.Clock(scn.get("clock", 1_700_000_000.0))
     cwd = os.path.join(root, scn.get("cwd", "."))
-    res = driver.run_cli(scn["argv"], cwd, vk=vk, git=git, clock=clock, tracer=tracer, timeout=timeout)
+    res = driver.run_cli(scn["argv"], cwd, vk=vk, git=git, clock=clock, tracer=tracer, timeout=timeout, env=scn.get("env"))
     if isinstance(res.exc, (vkmod.HarnessError,)) and not isinstance(res.exc, (vkmod.Deadlock, vkmod.Horizon)):
         raise res.exc
     if res.timed_out and res.exc is None:
